@@ -11,12 +11,23 @@ package controllers
 // event without a notification, notifications inside one window give one event.
 
 import (
+	"context"
+	"encoding/json"
 	"fmt"
 	"math/rand"
 	"sync"
 	"testing"
 	"time"
 
+	"github.com/go-kit/log"
+	frrv1beta1 "github.com/metallb/frr-k8s/api/v1beta1"
+	frrk8s "go.universe.tf/metallb/internal/bgp/frrk8s"
+	"go.universe.tf/metallb/internal/logging"
+	metav1 "k8s.io/apimachinery/pkg/apis/meta/v1"
+	"k8s.io/apimachinery/pkg/runtime"
+	"k8s.io/apimachinery/pkg/types"
+	ctrl "sigs.k8s.io/controller-runtime"
+	"sigs.k8s.io/controller-runtime/pkg/client/fake"
 	"sigs.k8s.io/controller-runtime/pkg/event"
 )
 
@@ -50,8 +61,19 @@ func vKGen(r *rand.Rand) vKScenario {
 		}
 		sc.Scripts = append(sc.Scripts, ds)
 	}
+	// the consumer of `out`: RecvUs[0] is its start delay, RecvUs[k] how long it is busy after the k-th event;
+	// sometimes longer than the debounce interval, so that the timer fires while nobody is receiving
 	for i := 0; i < 8; i++ {
-		sc.RecvUs = append(sc.RecvUs, r.Intn(3)*r.Intn(1500))
+		switch r.Intn(5) {
+		case 0:
+			sc.RecvUs = append(sc.RecvUs, 0)
+		case 1, 2:
+			sc.RecvUs = append(sc.RecvUs, r.Intn(1500))
+		case 3:
+			sc.RecvUs = append(sc.RecvUs, sc.IntervalUs+r.Intn(sc.IntervalUs))
+		default:
+			sc.RecvUs = append(sc.RecvUs, r.Intn(2*sc.IntervalUs))
+		}
 	}
 	return sc
 }
@@ -283,4 +305,169 @@ func TestVerifKDeb(t *testing.T) {
 			out.Stat("ktraces_with_coalescing", 1)
 		}
 	}
+}
+
+// ---------------------------------------------------------------------------
+// Delivery end to end: the REAL FRRK8sReconciler.UpdateConfig -> its
+// configChangedChan -> the REAL debouncer -> reconcileChan -> a consumer that
+// plays controller-runtime's channel source (starts late / is busy between
+// events) and a worker that runs the REAL Reconcile against a fake API server.
+// Property (C19 statement): eventually (bounded wait) the FRRConfiguration in
+// the API is the LAST submitted one.
+
+type vKDelSchedule struct {
+	IntervalUs int   `json:"interval_us"`
+	StartUs    int   `json:"start_us"` // the consumer starts receiving this late
+	BusyUs     []int `json:"busy_us"`  // busy time after the k-th event
+	SubmitUs   []int `json:"submit_us"`
+}
+
+func vKDelGen(r *rand.Rand) vKDelSchedule {
+	sc := vKDelSchedule{IntervalUs: 3000 + r.Intn(4000)}
+	switch r.Intn(3) {
+	case 0:
+		sc.StartUs = 0
+	case 1:
+		sc.StartUs = sc.IntervalUs + 2000 + r.Intn(4000) // not receiving yet when the first timer fires
+	default:
+		sc.StartUs = r.Intn(2 * sc.IntervalUs)
+	}
+	for i := 0; i < 6; i++ {
+		if r.Intn(2) == 0 {
+			sc.BusyUs = append(sc.BusyUs, sc.IntervalUs+r.Intn(2*sc.IntervalUs))
+		} else {
+			sc.BusyUs = append(sc.BusyUs, r.Intn(1000))
+		}
+	}
+	for i, n := 0, 1+r.Intn(6); i < n; i++ {
+		switch r.Intn(3) {
+		case 0:
+			sc.SubmitUs = append(sc.SubmitUs, 0) // burst
+		case 1:
+			sc.SubmitUs = append(sc.SubmitUs, r.Intn(sc.IntervalUs))
+		default:
+			sc.SubmitUs = append(sc.SubmitUs, sc.IntervalUs+r.Intn(2*sc.IntervalUs))
+		}
+	}
+	return sc
+}
+
+func TestVerifKDeliver(t *testing.T) {
+	out := vOpen()
+	defer out.Close()
+	r := vRand()
+	n := vN(24)
+	const node, ns = "node-a", "frr-k8s-system"
+	scs := []vKDelSchedule{{IntervalUs: 4000, StartUs: 9000, BusyUs: []int{0}, SubmitUs: []int{0}}} // consumer starts after the timer fired
+	for len(scs) < n {
+		scs = append(scs, vKDelGen(r))
+	}
+	var wg sync.WaitGroup
+	sem := make(chan struct{}, 8)
+	var omu sync.Mutex
+	for si, sc := range scs {
+		wg.Add(1)
+		sem <- struct{}{}
+		go func(si int, sc vKDelSchedule) {
+			defer wg.Done()
+			defer func() { <-sem }()
+			scheme := runtime.NewScheme()
+			if err := frrv1beta1.AddToScheme(scheme); err != nil {
+				panic(err)
+			}
+			cl := fake.NewClientBuilder().WithScheme(scheme).Build()
+			rec := &FRRK8sReconciler{Client: cl, Logger: log.NewNopLogger(), LogLevel: logging.LevelInfo, Scheme: scheme, NodeName: node,
+				FRRK8sNamespace: ns, configChangedChan: make(chan struct{}), reconcileChan: make(chan event.GenericEvent)}
+			debouncer(rec.configChangedChan, rec.reconcileChan, time.Duration(sc.IntervalUs)*time.Microsecond)
+			key := types.NamespacedName{Name: frrk8s.ConfigName(node), Namespace: ns}
+			stop := make(chan struct{})
+			dirty := make(chan struct{}, 1)
+			events := 0
+			var emu sync.Mutex
+			go func() { // the channel source
+				time.Sleep(time.Duration(sc.StartUs) * time.Microsecond)
+				for k := 0; ; k++ {
+					select {
+					case <-rec.reconcileChan:
+						emu.Lock()
+						events++
+						emu.Unlock()
+						select {
+						case dirty <- struct{}{}:
+						default:
+						}
+						if us := sc.BusyUs[k%len(sc.BusyUs)]; us > 0 {
+							time.Sleep(time.Duration(us) * time.Microsecond)
+						}
+					case <-stop:
+						return
+					}
+				}
+			}()
+			go func() { // the worker
+				for {
+					select {
+					case <-dirty:
+						_, _ = rec.Reconcile(context.TODO(), ctrl.Request{NamespacedName: key})
+					case <-stop:
+						return
+					}
+				}
+			}()
+			mk := func(k int) frrv1beta1.FRRConfiguration {
+				return frrv1beta1.FRRConfiguration{ObjectMeta: metav1.ObjectMeta{Name: key.Name, Namespace: ns},
+					Spec: frrv1beta1.FRRConfigurationSpec{BGP: frrv1beta1.BGPConfig{Routers: []frrv1beta1.Router{{ASN: uint32(64512 + k), ID: fmt.Sprintf("10.0.0.%d", k+1)}}}}}
+			}
+			blocked := false
+			for k, us := range sc.SubmitUs {
+				if us > 0 {
+					time.Sleep(time.Duration(us) * time.Microsecond)
+				}
+				done := make(chan struct{})
+				go func() { rec.UpdateConfig(mk(k)); close(done) }()
+				select {
+				case <-done:
+				case <-time.After(5 * time.Second):
+					blocked = true
+				}
+				if blocked {
+					break
+				}
+			}
+			last := mk(len(sc.SubmitUs) - 1)
+			want, _ := json.Marshal(last.Spec)
+			var got []byte
+			deadline := time.Now().Add(3 * time.Second)
+			delivered := false
+			for !blocked && !delivered && time.Now().Before(deadline) {
+				cur := frrv1beta1.FRRConfiguration{}
+				if err := cl.Get(context.TODO(), key, &cur); err == nil {
+					got, _ = json.Marshal(cur.Spec)
+					delivered = string(got) == string(want)
+				}
+				if !delivered {
+					time.Sleep(2 * time.Millisecond)
+				}
+			}
+			close(stop)
+			emu.Lock()
+			ev := events
+			emu.Unlock()
+			omu.Lock()
+			defer omu.Unlock()
+			out.Stat("deliver_schedules", 1)
+			out.Stat("deliver_submissions", len(sc.SubmitUs))
+			out.Stat("deliver_events", ev)
+			if sc.StartUs > sc.IntervalUs {
+				out.Stat("deliver_consumer_starts_after_first_timer", 1)
+			}
+			if blocked {
+				out.Fail("kdeb-update-blocked", fmt.Sprintf("schedule %d: UpdateConfig did not return within 5 s", si), sc)
+			} else if !delivered {
+				out.Fail("kdeb-config-not-delivered", fmt.Sprintf("schedule %d: 3 s after the last UpdateConfig the FRRConfiguration in the API is not the last submitted one (%d reconcile events reached the consumer; in API: %s)",
+					si, ev, string(got)), sc)
+			}
+		}(si, sc)
+	}
+	wg.Wait()
 }
